@@ -7,13 +7,17 @@ from decaylib import F, Gen, ancestors_sum, is_finite
 from oracle import DatasetView, LeanOracle, eval_adaptive
 
 NEEDS_DATASET = True
-TARGETS = ["RdVerif.Props.C02", "RdVerif.Props.C04", "RdVerif.Props.C01Oracle", "RdVerif.Props.AllDatasets"]
+TARGETS = ["RdVerif.Props.C02", "RdVerif.Props.C04", "RdVerif.Props.C01Oracle", "RdVerif.Props.AllDatasets", "RdVerif.Props.C02Error"]
 THEOREMS = ["RdVerif.C02.C02_symbolic", "RdVerif.C02.C02_single_parent", "RdVerif.C02.C02_sig_fig_ge", "RdVerif.C04.exact_inverses", "RdVerif.C04.exact_diagonalises", "RdVerif.C04.pickles_identical",
-            "RdVerif.C01.C01_oracle_sound", "RdVerif.AllDatasets.exact_solution", "RdVerif.AllDatasets.oracle_sound"]
+            "RdVerif.C01.C01_oracle_sound", "RdVerif.AllDatasets.exact_solution", "RdVerif.AllDatasets.oracle_sound",
+            "RdVerif.C02.C02_hp_abs_error", "RdVerif.C02.C02_hp_rel_error"]
 PARTIAL = {
-    "C02_rel_error_partial": "relative error <= 1e-13 is checked per input against the verified oracle, and only claimed when the "
-                             "exact value is >= 1e-290 x the ancestors' atoms; below that 320 significant digits are not enough "
-                             "(open known finding F6) — the full statement ('however small') is false on the shipped code",
+    "C02_rel_error (arithmetic model)": "relative error <= 1e-13 for every value >= 1e-290 x the initial atoms IS a theorem "
+                             "(C02_hp_rel_error) under a model of the 320-digit arithmetic stated in its hypotheses (per-term "
+                             "relative perturbation and per-exponential error with Theta(1+eta)+eta <= 1e-306); that SymPy/mpmath "
+                             "meet the model is assumed and observed per input against the proved oracle. Below 1e-290 the "
+                             "guarantee ends — 320 digits are used up by cancellation (open known finding F6): the full "
+                             "statement ('however small') is false on the shipped code",
 }
 ASSUMPTIONS = [
     "SymPy/mpmath round each operation correctly at the working precision; nsimplify's reading of a float is taken as the "
